@@ -85,6 +85,7 @@ type Exec struct {
 	permMaps     bool
 	havoc        bool
 	staleObjs    int
+	mon          [5]int64 // monitor checks on this path: frame stores, pool puts, pool gets, pooled-object accesses, race-checked accesses
 	mapSeq       int
 
 	merge *mergeCtx
@@ -833,6 +834,7 @@ func (fr *frame) visit(instr ssa.Instruction) continuation {
 			panic(nilDeref())
 		}
 		if len(e.inPool) > 0 {
+			e.mon[3]++
 			if w, ok := e.inPool[p]; ok {
 				fname := ins.X.Type().Underlying().(*types.Pointer).Elem().Underlying().(*types.Struct).Field(ins.Field).Name()
 				e.event("use-after-put", "use-after-put", fmt.Sprintf("field %s of %s accessed in %s while the object is in its pool (put at %s)", fname, ins.X.Type(), fr.fn.Name(), w))
@@ -1005,6 +1007,7 @@ func (e *Exec) unop(ins *ssa.UnOp, x Value) Value {
 			e.memAccess(p, false, "load")
 		}
 		if p != nil && len(e.inPool) > 0 {
+			e.mon[3]++
 			if w, ok := e.inPool[p]; ok {
 				e.event("use-after-put", "use-after-put", fmt.Sprintf("load of %s while the object is in its pool (put at %s)", ins.X.Type(), w))
 			}
